@@ -1,7 +1,7 @@
 """C09 — shape-based simplifications hold for every runtime binding of symbolic dims."""
 import re
 
-MODULES = ["contracts.c03_folding"]
+MODULES = ["contracts.c03_folding", "contracts.c09_expand"]
 HEAD = "import sys\nsys.path.insert(0, '/verif')\nfrom replay_lib.opt_native import main\n"
 
 
@@ -14,4 +14,6 @@ def replay(ob):
     n = ob["name"]
     if ".add." in n:
         return HEAD + "main(['abs_add'])\n"
+    if "expand_removable" in n:
+        return HEAD + "main(['expand_rank'])\n"
     return None
